@@ -517,6 +517,25 @@ void Exec::live_src_op(const Op &op, Inst *S, bool top) {
     }
 }
 
+// Known finding KF-C04-1 again: resuming a module starts its not yet consumed task sources a second time (the task function runs again).
+// To keep "no task in flight while anything else happens" the harness lets those runs finish as well before the next op: it waits for the
+// completion write on every event descriptor created by the resume call.
+void Exec::wait_for_rearmed_tasks(Inst *S, const std::set<int> &fds_before) {
+    int pending = 0;
+    for (auto &kv : S->live_srcs) if (kv.first.first == M_SRC_TYPE_TASK) { long ki = kv.first.second; if (ki >= 0 && ki < 3) { sem_post(&task_latch[ki]); pending++; } }
+    if (!pending) return;
+    cls.insert("task-restarted-by-resume");
+    for (int fd : open_fds()) {
+        if (fds_before.count(fd)) continue;
+        char path[64], target[128]; snprintf(path, sizeof path, "/proc/self/fd/%d", fd);
+        ssize_t n = readlink(path, target, sizeof target - 1); if (n <= 0) continue; target[n] = 0;
+        if (!strstr(target, "eventfd")) continue;
+        struct pollfd pfd = {fd, POLLIN, 0};
+        bool has_thresh = false; for (auto &kv : S->live_srcs) if (kv.first.first == M_SRC_TYPE_THRESH) has_thresh = true; // threshold sources use event descriptors too: those never become readable here
+        if (poll(&pfd, 1, has_thresh ? 200 : 5000) != 1 && !has_thresh) { v.inconclusive = true; cls.insert("task-completion-not-observed"); }
+    }
+}
+
 void Exec::live_fire(const Op &op) {
     int kind = (int)op.a; long ki = ((op.b % 3) + 3) % 3;
     Inst *owner = nullptr; for (auto &i : insts) if (i.live_srcs.count({kind, ki})) owner = &i;
